@@ -583,16 +583,33 @@ class SimFile(object):
 
     def __init__(self, so):
         self._so = so
+        self._wbuf = b""
 
     def fileno(self):
         if self._so._closed:
             raise ValueError("I/O operation on closed file")
         return self._so._fd
 
+    def write(self, data):
+        """buffered, like a file object: nothing reaches the descriptor before flush() / close()"""
+        if self._so._closed:
+            raise ValueError("write to closed file")
+        self._wbuf += bytes(data)
+        return len(data)
+
     def flush(self):
-        pass
+        if self._so._closed:
+            raise ValueError("I/O operation on closed file")
+        while self._wbuf:
+            n = _fake_os_write(self._so._fd, self._wbuf)
+            self._wbuf = self._wbuf[n:]
 
     def close(self):
+        if not self._so._closed and self._wbuf:
+            try:
+                self.flush()
+            except OSError:
+                pass
         self._so.close()
 
     @property
@@ -1180,6 +1197,10 @@ def make_socket_module():
     m.create_connection = create_connection
     m.gethostbyname = lambda h: h
     return m
+
+
+def _fake_os_write(fd, data):
+    return FakeOS().write(fd, data)
 
 
 class FakeOS(object):
